@@ -339,7 +339,7 @@ pub fn generate(seed: u64) -> C05Scn {
         }
         let zone_off = rng.range(-48, 56) * 900;
         let time = if rng.chance(1, 2) || !reftime::fits_rfc3339(t.0, zone_off) {
-            RunTime::Clock { tick_ns: *rng.pick(&[0i64, 0, 0, 1, 1, 500_000_000, 1_000_000_000]) }
+            RunTime::Clock { tick_ns: *rng.pick(&[0i64, 0, 0, 1, 1, 500_000_000, 1_000_000_000, -1, -1_000_000_000]) }
         } else {
             RunTime::Explicit {
                 zone_off,
@@ -534,7 +534,14 @@ pub fn run(scn: &C05Scn, stats: &mut RunStats) -> Option<Violation> {
             RunTime::Clock { .. } => {
                 stats.bump("clock_tick_per_read_fired");
                 perturbed = true;
-                (clock_first.unwrap_or(r.now), clock_last)
+                if let RunTime::Clock { tick_ns } = &r.time {
+                    if *tick_ns < 0 {
+                        stats.bump("clock_steps_back_during_run_fired");
+                    }
+                }
+                // envelope of the readings (the clock may also run backwards between readings)
+                let (a, b) = (clock_first.unwrap_or(r.now), clock_last);
+                (a.min(b), a.max(b))
             }
         };
         let stdout = String::from_utf8_lossy(&stdout_bytes).into_owned();
